@@ -262,6 +262,11 @@ def _protocol(ctx, col):
         def is_latest(e):
             if isinstance(e, ast.Call) and isinstance(e.func, ast.Attribute) and e.func.attr == "latest_step":
                 return True
+            # max(<manager>.all_steps(), default=None): the manager's own (integer) steps - the same step as latest_step()
+            if isinstance(e, ast.Call) and isinstance(e.func, ast.Name) and e.func.id == "max" and len(e.args) == 1 and isinstance(e.args[0], ast.Call) \
+                    and isinstance(e.args[0].func, ast.Attribute) and e.args[0].func.attr == "all_steps" and not e.args[0].args \
+                    and any(k.arg == "default" and isinstance(k.value, ast.Constant) and k.value.value is None for k in e.keywords):
+                return True
             if isinstance(e, ast.Name):  # a local bound once to <manager>.latest_step()
                 defs = [n.ast for n in nodes if isinstance(n.ast, ast.Assign) and len(n.ast.targets) == 1
                         and isinstance(n.ast.targets[0], ast.Name) and n.ast.targets[0].id == e.id]
@@ -345,9 +350,11 @@ def _protocol(ctx, col):
             tmpl_ok = tname is not None and any(
                 isinstance(x, ast.Name) and x.id == tname for k in rcall.keywords for x in ast.walk(k.value)
             )
-            ok = recv_ok and arg_ok and step_ok and tmpl_ok and g.dominates(mrestore, apply_)
+            uncond = g.postdominates(apply_, mrestore)
+            ok = recv_ok and arg_ok and step_ok and tmpl_ok and g.dominates(mrestore, apply_) and uncond
             why = "manager.restore(step, StandardRestore(template)) -> _restore_state_from_checkpoint(restored)" if ok else \
-                f"receiver ok={recv_ok}, restored object passed={arg_ok}, step passed={step_ok}, template used={tmpl_ok}"
+                ("the restored state is applied only on some paths after manager.restore (a conditional restore leaves the solver with the state it had)" if not uncond else
+                 f"receiver ok={recv_ok}, restored object passed={arg_ok}, step passed={step_ok}, template used={tmpl_ok}")
         col.add("R10.3", construct, file, (apply_.lineno if apply_ else fn.lineno), ok, why, text="apply restored state")
         # (h) the manager that selects and restores the step reads the directory ARGUMENT
         dir_param = [a.arg for a in fn.args.args if a.arg not in ("self", "cls")][0]
